@@ -157,11 +157,11 @@ var props = map[string]propCfg{
 	},
 	"C15": {
 		ID: "C15", Level: "fault_enumeration",
-		Rule:   "for every seeded input (CSV document+config, JSON document, frame for ToCSV/ToJSON/ToSQL, stored table for ReadSQL) the fault-free run is recorded, then EVERY fault position is executed: reader byte offsets 0..len (len = instead of EOF) x {(0,err), (k>0,err)} x {a drawn opaque kind, io.ErrUnexpectedEOF, wrapped io.EOF}; writer byte offsets 0..len-1 x {(0,err), short write} x drawn kind; driver calls (Prepare, Exec, Stmt.Exec, Query, every Rows.Next incl. the one that would report EOF) x {opaque, driver.ErrBadConn}; each under a freshly derived fragmentation plan. evaluations = fault runs; a run is non-trivial when the stub actually returned the injected error to its caller (fired); distinct = distinct (surface, input, position, shape, kind). Positions are exhaustive per input; inputs are sampled by seed.",
-		Phases: []phase{{Engine: "iofault", Test: "TestC15", QuickChecks: 500, ThoroughChecks: 1500}},
+		Rule:   "for every seeded input (CSV document+config, JSON document, frame for ToCSV/ToJSON/ToSQL, stored table for ReadSQL) the fault-free run is recorded, then EVERY fault position is executed: reader byte offsets 0..len (len = instead of EOF) x {(0,err) for good, (k>0,err) for good, (0,err) once then working again} x {a drawn opaque kind, io.ErrUnexpectedEOF, wrapped io.EOF}; writer byte offsets 0..len-1 x {(0,err) for good, short write for good, one failing Write then working again} x drawn kind; driver calls (Prepare, Exec, Stmt.Exec, Query, every Rows.Next incl. the one that would report EOF) x {opaque, driver.ErrBadConn}; each under a freshly derived fragmentation plan. evaluations = fault runs; a run is non-trivial when the stub actually returned the injected error to its caller (fired); distinct = distinct (surface, input, position, shape, kind). Positions are exhaustive per input; inputs are sampled by seed.",
+		Phases: []phase{{Engine: "iofault", Test: "TestC15", QuickChecks: 350, ThoroughChecks: 800}},
 		Real:   append(append([]string{}, commonReal...), "database/sql above the driver interface", "bufio inside encoding/csv"),
 		Stub:   []string{"io.Reader (SimReader with fault)", "io.Writer (SimWriter with fault / full disk)", "database/sql driver (SimDB with fault at call k)"},
-		Assume: []string{"a fault that database/sql absorbs itself (retry after driver.ErrBadConn) creates no obligation: decided by running a trivially correct reference client under the same fault", "an error wrapping io.EOF may be read as end of stream: only 'no silent loss' is required for it", "data delivered together with an error: only 'no error => complete result' is required (encoding/json may legitimately finish on the data)", "cancellation of the Tx context is not injected (database/sql reacts on its own goroutine; not replayable)"},
+		Assume: []string{"driver.ErrBadConn may be absorbed by database/sql itself (it retries Stmt.Exec/Stmt.Query, not Tx.Exec), so for it only 'no error => nothing lost' is required; 'fault fired => error reported' is required for the opaque driver error, which database/sql hands to its caller on every path", "an error wrapping io.EOF may be read as end of stream: only 'no silent loss' is required for it", "data delivered together with an error: only 'no error => complete result' is required (encoding/json may legitimately finish on the data)", "cancellation of the Tx context is not injected (database/sql reacts on its own goroutine; not replayable)"},
 	},
 }
 
@@ -799,7 +799,9 @@ func merge(cfg propCfg, tier string, seed uint64, seeds []uint64, all []*workerR
 		"exhaustive":          false,
 	}
 	for k, v := range extra {
-		cov[k] = v
+		if k != "eventlog_digest" { // per-process digest, only meaningful to the determinism self-test
+			cov[k] = v
+		}
 	}
 	ev := map[string]interface{}{
 		"property_id": cfg.ID,
